@@ -359,8 +359,36 @@ def addrClass? (cls name : String) : Option AddrClass :=
   | "module" => some (if initModules.contains name then .moduleInit else .moduleLazy)
   | _ => none
 
+/-- the coin-list shapes of the rvesting genesis probes (same table as harness/c15_life_test.go). -/
+def rvShape? : String → Option (List (String × Int))
+  | "empty" => some []
+  | "sorted" => some [("acoin", 5), ("stake", 7)]
+  | "unsorted" => some [("stake", 7), ("acoin", 5)]
+  | "dup" => some [("atele", 5), ("uxyz", 7), ("atele", 3)]
+  | "zero" => some [("acoin", 0)]
+  | "baddenom" => some [("a", 5)]
+  | _ => none
+
+def stepLcRv (f : List String) : Option String :=
+  match f with
+  | [fr, ir, pbr, en] => do
+    let src ← (match fr with | "none" => some From.none | "bad" => some From.bad | "funded" => some From.good | "unfunded" => some From.good | _ => none)
+    let irc ← rvShape? ir
+    let pc ← rvShape? pbr
+    let d : RvDoc := { enable := ← b? en, reward := pc.map (fun c => { denom := c.1, amount := some c.2 }), src := src, initReward := irc }
+    let canPay := fr == "funded" || irc.isEmpty
+    match rvValidateDoc d with
+    | .ok _ =>
+      match rvInitDoc d canPay with
+      | .ok _ => pure "v=ok init=ok block=ok"
+      | _ => pure "v=ok init=panic block=-"
+    | .err _ => pure "v=err init=- block=-"
+    | .panic _ => pure "v=panic init=- block=-"
+  | _ => none
+
 def stepLc (f : List String) : Option String :=
   match f with
+  | "rv" :: r => stepLcRv r
   | [k, cls, name] => do
     let k ← accKind? k
     let a ← addrClass? cls name
